@@ -6,13 +6,20 @@ from checks import simcommon as sc
 
 MODULE = "Nice.Props.C12"
 THEOREMS = [f"Nice.Props.C12.{t}" for t in (
-    "C12_no_dangling", "C12_remove_preserves", "C12_keepalive_removed_with_last_stream", "C12_keepalive_rearm",
-    "C12_consent_rearm")]
+    "C12_reachable_wf", "WF_step", "wfb_iff", "C12_no_dangling", "C12_remove_preserves", "C12_last_refresh_closes",
+    "C12_keepalive_removed_with_last_stream", "C12_keepalive_rearm", "C12_consent_rearm")]
 TRUSTED = [
     "Lean 4 kernel; axioms propext, Classical.choice, Quot.sound only (audited every run)",
-    "Nice/Model/Lifecycle.lean carries only the BOOKKEEPING of the property (which containers mention a stream, keepalive timer "
-    "ownership) and the timer re-arm arithmetic; it is tied by comparing, after every remove_stream, the real agent's discovery "
-    "list, refresh list, triggered queue and check lists (read through private headers) with the model's post-state",
+    "Nice/Model/Lifecycle.lean carries only the BOOKKEEPING of the property (which containers mention a stream, which stream "
+    "object owns each TURN refresh while it is disposed asynchronously, keepalive timer ownership) and the timer re-arm "
+    "arithmetic. Tie: around every nice_agent_add_stream / nice_agent_remove_stream the harness snapshots the real agent's "
+    "streams, discovery list, refresh list (with `disposing`), triggered queue, check lists, pruning_streams, keepalive source "
+    "and next_stream_id (private headers); the Lean driver applies the model's addStream/removeStream to the pre-snapshot and "
+    "must reproduce the post-snapshot exactly, and evaluates the executable invariant `wfb` (proved equivalent to WF) on EVERY "
+    "snapshot, including those taken after arbitrary main-loop time. The other model transitions (gather, alloc, forget, freed, "
+    "...) are not compared step by step: their effect is only checked through the invariant on the snapshots",
+    "a disposing refresh is read as `forgetting` while its stream is live and as `removing` otherwise (the C struct does not say "
+    "which call disposed it): WF.prun is therefore checked in the weaker form `a parked stream still has SOME disposing refresh`",
     "memory safety, use-after-free, assertion failures and leaks of the C implementation CANNOT be expressed by the model: they "
     "are observed only, by executing generated API programs (<= 60 calls incl. stale ids, with main-loop iterations and peer "
     "traffic interleaved) on real agents under ASan + UBSan + LSan, comparing open descriptors before/after, and counting "
@@ -26,6 +33,7 @@ def program(rng, tier):
     ops = []
     alive = {"A": True, "B": True}
     sids = {"A": [], "B": []}
+    removed = {"A": set(), "B": set()}
     ncomp = {}
     use_turn = rng.random() < 0.3
     consent = rng.random() < 0.3
@@ -34,7 +42,7 @@ def program(rng, tier):
     ops += [f"net seed {rng.randrange(10 ** 6)}", "net trace 0", f"net latency 1 {rng.choice([1, 20, 150])}",
             f"net loss {rng.choice([0, 0, 20])} 2"]
     if use_turn:
-        ops.append(f"server 127.0.0.60:3478 turn {rng.choice(['a', 'ua', 'd', 'ue', 'n'])} user pass")
+        ops.append(f"server 127.0.0.60:3478 turn {rng.choice(['a', 'a', 'a', 'ua', 'd', 'ue', 'n'])} user pass")
     ops.append(f"new A ctrl={rng.randint(0, 1)} compat=0 opts={opts} addrs=127.0.0.1" + (",127.0.0.2" if rng.random() < 0.3 else ""))
     ops.append(f"new B ctrl={rng.randint(0, 1)} compat=0 opts={opts} addrs=127.0.1.1")
     ops.append("fds")
@@ -73,6 +81,11 @@ def program(rng, tier):
             if rng.random() < 0.8:
                 ops.append(f"attach {ag} {sids[ag][-1]}")
         elif kind in ("gather", "restartstream", "rmstream"):
+            if kind == "rmstream":
+                lv = [x for x in sids[ag] if x not in removed[ag]]
+                if lv and rng.random() < 0.8:
+                    sid = rng.choice(lv)
+                removed[ag].add(sid)
             ops.append(f"{kind} {ag} {sid}")
             if kind == "rmstream":
                 ops.append(f"res {ag}")
@@ -127,17 +140,27 @@ def program(rng, tier):
     return [o for o in ops if o]
 
 
+SNAP_DROP = re.compile(r" conncheck \d+ discoverytimer \d+")
+
+
+def canon(snap):
+    return SNAP_DROP.sub("", snap).strip()
+
+
 def execute(args):
     exe, seed, tier = args
     import random
-    rng = random.Random(f"C12/{seed}")
-    prog = program(rng, tier)
+    if isinstance(seed, tuple):
+        prog = seed[1]
+    else:
+        rng = random.Random(f"C12/{seed}")
+        prog = program(rng, tier)
     env = dict(vlib.ENV, ASAN_OPTIONS="detect_leaks=1:abort_on_error=0:allocator_may_return_null=1")
     try:
         r = subprocess.run([exe], input="\n".join(prog) + "\n", capture_output=True, text=True, env=env, timeout=120)
     except subprocess.TimeoutExpired as e:
         return dict(seed=seed, bad=[("hang", "the program did not finish within 120 s of real time (busy loop in the library or the harness)")],
-                    script=prog, nops=len(prog), rate=None, nres=0, kinds=[l.split()[0] for l in prog])
+                    script=prog, nops=len(prog), rate=None, lc=[], kinds=[l.split()[0] for l in prog])
     bad = []
     out = r.stdout.splitlines()
     statuses = [l for l in out if l.startswith("ok") or l.startswith("err")]
@@ -150,41 +173,35 @@ def execute(args):
             bad.append(("crash", f"exit {r.returncode}: " + r.stderr[-1500:]))
     if any("spin-detected" in l for l in out):
         bad.append(("spin", "main loop dispatched more than 20000 times without the clock advancing"))
-    # lifecycle tie: after each rmstream the following `res` line must not mention the removed id
-    nres = 0
-    for i, l in enumerate(prog):
-        pass
-    opi = 0
-    res_lines = [l for l in statuses if l.startswith("ok streams")]
-    ri = 0
-    last_removed = None
-    for l in prog:
+    # lifecycle tie: collect (driver line, expected output or None, description)
+    lc = []
+    pend = {}
+    for l in out:
         w = l.split()
-        if w[0] == "rmstream":
-            last_removed = (w[1], int(w[2]))
-            continue
-        if w[0] == "res" and ri < len(res_lines):
-            line = res_lines[ri]; ri += 1; nres += 1
-            d, cur = {}, None
-            for tok in line.split()[1:]:
-                if tok in ("streams", "discovery", "refreshes", "triggered", "checklists", "keepalive", "conncheck", "discoverytimer"):
-                    cur = tok; d[cur] = []
-                elif cur:
-                    d[cur].append(tok)
-            live = set(map(int, d.get("streams", [])))
-            for cont in ("discovery", "refreshes", "triggered"):
-                for x in d.get(cont, []):
-                    if int(x) not in live:
-                        bad.append(("dangling", f"agent {w[1]}: container `{cont}` still mentions stream {x} (live streams {sorted(live)}): {line}"))
-            for x in d.get("checklists", []):
-                if int(x.split(":")[0]) not in live:
-                    bad.append(("dangling", f"agent {w[1]}: a check list of removed stream {x} still exists"))
-            # the `res` directly after `rmstream X sid` must not list sid any more (C12_no_dangling)
-            if last_removed and last_removed[0] == w[1] and last_removed[1] in live:
-                bad.append(("dangling", f"agent {w[1]}: stream {last_removed[1]} still listed after remove_stream returned: {line}"))
-            if not live and d.get("keepalive") == ["1"]:
-                bad.append(("dangling", f"agent {w[1]}: keepalive timer still armed with no stream left: {line}"))
-        last_removed = None
+        if l.startswith("ev lc add ") and len(w) > 5:
+            snap = canon(" ".join(w[5:]))
+            if snap == "dead":
+                continue
+            if w[4] == "pre":
+                pend[("add", w[3])] = snap
+            elif ("add", w[3]) in pend:
+                pre = pend.pop(("add", w[3]))
+                m = re.search(r"next (\d+)", pre)
+                lc.append((f"lc add {pre}", f"id {m.group(1)} {snap}", f"add_stream on {w[3]}"))
+                lc.append((f"lc wf {snap}", "wf 1", f"invariant after add_stream on {w[3]}"))
+        elif l.startswith("ev lc rm ") and len(w) > 6:
+            snap = canon(" ".join(w[6:]))
+            if snap == "dead":
+                continue
+            if w[5] == "pre":
+                pend[("rm", w[3])] = snap
+            elif ("rm", w[3]) in pend:
+                pre = pend.pop(("rm", w[3]))
+                lc.append((f"lc rm {w[4]} {pre}", snap, f"remove_stream({w[4]}) on {w[3]}"))
+                lc.append((f"lc wf {snap}", "wf 1", f"invariant after remove_stream({w[4]}) on {w[3]}"))
+                lc.append((f"lc mentions {w[4]} {snap}", "mentions 0", f"no live container mentions {w[4]} after remove_stream on {w[3]}"))
+        elif l.startswith("ok streams"):
+            lc.append((f"lc wf {canon(l[3:])}", "wf 1", "invariant on a snapshot after main-loop time"))
     # descriptors
     fds = [int(l.split()[2]) for l in statuses if l.startswith("ok fds")]
     if len(fds) == 2 and r.returncode == 0 and fds[1] > fds[0]:
@@ -199,8 +216,18 @@ def execute(args):
         # packets sent during the window are legitimate work (keepalives, retransmissions): allow 12 dispatches each
         if rate > IDLE_RATE_LIMIT + 12 * (s1 - s0) / 20.0:
             bad.append(("busy-idle", f"{d1 - d0} main-loop dispatches in 20 idle virtual seconds ({rate:.0f}/s) with {s1 - s0} packets sent"))
-    return dict(seed=seed, bad=bad, script=prog, nops=len(prog), rate=rate, nres=nres,
+    return dict(seed=seed, bad=bad, script=prog, nops=len(prog), rate=rate, lc=lc,
                 kinds=[l.split()[0] for l in prog])
+
+
+def corpus_programs():
+    d = os.path.join(vlib.ROOT, "corpus", "C12")
+    out = []
+    if os.path.isdir(d):
+        for f in sorted(os.listdir(d)):
+            if f.endswith(".scn"):
+                out.append((f, [l.strip() for l in open(os.path.join(d, f)) if l.strip() and not l.startswith("#")]))
+    return out
 
 
 def run(tier, seed):
@@ -214,7 +241,9 @@ def run(tier, seed):
             chk.note("harness build failed: " + log[-1500:]); st["libs"] = False; st["log"] = log
         else:
             n = 300 if tier == "quick" else 6000
-            res = simlib.run_parallel(execute, [(exe, seed * 100000 + i, tier) for i in range(n)])
+            corp = corpus_programs()
+            jobs = [(exe, ("corpus", scr), tier) for _, scr in corp] + [(exe, seed * 100000 + i, tier) for i in range(n)]
+            res = simlib.run_parallel(execute, jobs)
             kinds, fk = {}, {}
             for r in res:
                 for k in r["kinds"]:
@@ -222,20 +251,60 @@ def run(tier, seed):
                 for kind, what in r["bad"]:
                     fk[kind] = fk.get(kind, 0) + 1
                     ofail.append({"why": f"{kind}: {what}", "session": r["script"]})
+            # lifecycle correspondence + invariant, one model process for everything
+            lines, owner = [], []
+            for ri, r in enumerate(res):
+                for (line, exp, what) in r["lc"]:
+                    lines.append(line); owner.append((ri, exp, what))
+            n_lc = {"add": 0, "rm": 0, "wf": 0, "mentions": 0}
+            if lines and st.get("proof"):
+                mo, mrc, merr = vlib.run_lines(vlib.model_exe(), lines)
+                if len(mo) != len(lines):
+                    diverged.append({"op": "lc", "impl": f"{len(lines)} lines", "model": f"{len(mo)} lines rc={mrc} {merr[-300:]}"})
+                else:
+                    seen = set()
+                    for (ri, exp, what), line, got in zip(owner, lines, mo):
+                        k = line.split()[1]
+                        n_lc[k] = n_lc.get(k, 0) + 1
+                        if k == "rm":
+                            if re.search(r"pruning \d", exp):
+                                n_lc["rm_parked"] = n_lc.get("rm_parked", 0) + 1
+                            if re.search(r"refreshes [^a-z]*\d+!", line):
+                                n_lc["rm_with_disposing_refresh"] = n_lc.get("rm_with_disposing_refresh", 0) + 1
+                            if line.split()[2] not in line.split("discovery")[0].split()[4:]:
+                                n_lc["rm_stale_id"] = n_lc.get("rm_stale_id", 0) + 1
+                        if got == exp or ri in seen:
+                            continue
+                        seen.add(ri)
+                        if k in ("wf", "mentions"):
+                            # the implementation's own state violates the invariant the theorems establish
+                            fk["dangling"] = fk.get("dangling", 0) + 1
+                            ofail.append({"why": f"dangling: {what}: the real agent's containers violate the lifecycle invariant "
+                                                 f"(a resource whose owning stream object no longer exists, a stranded parked stream, "
+                                                 f"or a keepalive timer without streams): `{line[3:]}`", "session": res[ri]["script"]})
+                        else:
+                            diverged.append({"op": line, "impl": exp, "model": got, "what": what, "session": res[ri]["script"]})
             rates = [r["rate"] for r in res if r["rate"] is not None]
             chk.cov["evaluations"] = len(res)
             chk.cov["distinct_nontrivial"] = len({tuple(r["script"]) for r in res if r["nops"] > 25})
-            chk.cov["traces_validated_against_impl"] = sum(r["nres"] for r in res)
+            chk.cov["traces_validated_against_impl"] = n_lc["add"] + n_lc["rm"]
             chk.cov["rule"] = ("one evaluation = one generated API program (10-60 calls over add/remove stream, gather, set credentials/"
                                "candidates, SDP generate+parse, relay info, restart, send, attach/detach, selected pair, consent lost, "
                                "forget relays, close_async, unref; valid and stale ids; main-loop time and peer traffic interleaved; "
                                "optional TURN server, consent freshness, reliable mode) run on real agents under ASan+UBSan+LSan, then "
-                               "20 idle virtual seconds, unref, drain; non-trivial = distinct programs longer than 25 ops")
-            chk.cov["samples"] = [res[0]["script"]]
+                               "20 idle virtual seconds, unref, drain; committed witnesses (corpus/C12) run first; non-trivial = distinct "
+                               "programs longer than 25 ops; traces validated = add_stream/remove_stream steps on which model and "
+                               "implementation post-states were compared")
+            chk.cov["samples"] = [res[len(corp)]["script"]] if len(res) > len(corp) else []
             chk.cov["generator_distribution"] = {"op_kinds": kinds, "failure_kinds": fk,
                                                  "idle_dispatch_rate_max_per_s": max(rates) if rates else None,
-                                                 "lifecycle_inspections": sum(r["nres"] for r in res)}
-    return conclude(chk, st, diverged, ofail, "sim_drv:C12 API programs under ASan/LSan")
+                                                 "lifecycle_steps_compared": {"add_stream": n_lc["add"], "remove_stream": n_lc["rm"],
+                                                                              "remove_stream_parked_on_pruning": n_lc.get("rm_parked", 0),
+                                                                              "remove_stream_with_disposing_refresh": n_lc.get("rm_with_disposing_refresh", 0),
+                                                                              "remove_stream_stale_id": n_lc.get("rm_stale_id", 0)},
+                                                 "invariant_evaluations_on_real_snapshots": n_lc["wf"],
+                                                 "corpus_programs": len(corp)}
+    return conclude(chk, st, diverged, ofail, "sim_drv:C12 API programs under ASan/LSan + lifecycle snapshots vs Nice.Lifecycle")
 
 
 def replay(path):
@@ -245,7 +314,13 @@ def replay(path):
         print(json.dumps(r, indent=1)); return 0
     vlib.ensure_libs()
     ok, exe, log = sc.build_sim()
-    env = dict(vlib.ENV, ASAN_OPTIONS="detect_leaks=1")
-    rr = subprocess.run([exe], input="\n".join(s) + "\n", capture_output=True, text=True, env=env)
-    print(rr.stdout[-5000:]); print(rr.stderr[-4000:]); print("exit", rr.returncode)
-    return 1 if rr.returncode else 0
+    res = execute((exe, ("replay", s), "quick"))
+    print(json.dumps(res["bad"], indent=1))
+    rc = 1 if res["bad"] else 0
+    if res["lc"]:
+        mo, mrc, merr = vlib.run_lines(vlib.model_exe(), [l for l, _, _ in res["lc"]])
+        for (line, exp, what), got in zip(res["lc"], mo):
+            if got != exp:
+                print("MISMATCH", what, "\n  op   ", line, "\n  impl ", exp, "\n  model", got); rc = 1
+    print("exit", rc)
+    return rc
